@@ -330,6 +330,10 @@ def _run_streams(prop, tier, seed, replay, t0, out, impl, work, obligations, dis
         orc = None
         if cr[1] is None and hasattr(prop, "oracle"):
             orc = prop.oracle(s, cr[0])
+        if orc is None and cr[1] is None and lr[1] is None and hasattr(prop, "oracle2"):
+            # an oracle that also sees what the *specification side* of the driver computed
+            # from the implementation's outputs (e.g. the reference decoder run on the C bytes)
+            orc = prop.oracle2(s, cr[0], lr[0])
         if d is None and orc is None:
             sig = prop.signature(s, cr[0]) if hasattr(prop, "signature") else hashlib.md5("|".join(cr[0]).encode()).hexdigest()
             for g in (sig if isinstance(sig, (list, set, tuple)) and not isinstance(sig, str) else [sig]):
@@ -407,7 +411,9 @@ def search(prop, runner, s, d, orc, cr, lr, tier):
     """shrink the disagreement and look for an input on which the *property* fails on the
     implementation.  Returns (found, lines, expected, actual, text)."""
     lines = list(s.lines)
-    has_oracle = hasattr(prop, "oracle")
+    has_oracle = hasattr(prop, "oracle") or hasattr(prop, "oracle2")
+    if not hasattr(prop, "oracle"):
+        prop.oracle = lambda scn, outs: None
     def impl_out(ls):
         r = runner.run_batch([Scenario("x", ls)], "impl", timeout=60)[0]
         return r
@@ -420,7 +426,13 @@ def search(prop, runner, s, d, orc, cr, lr, tier):
             return getattr(prop, "CRASH_IS_VIOLATION", True)
         if not has_oracle:
             return False
-        m = prop.oracle(Scenario("x", ls, s.meta), o)
+        sc = Scenario("x", ls, s.meta)
+        m = prop.oracle(sc, o)
+        if m is None and hasattr(prop, "oracle2"):
+            pre = getattr(prop, "two_pass", None)
+            lo = runner.run_batch([Scenario("x", pre(sc, o) if pre else ls)], "lean", timeout=60)[0]
+            if lo[1] is None:
+                m = prop.oracle2(sc, o, lo[0])
         return m is not None and (want_kind is None or kind(m) == want_kind)
     want_op = s.lines[d[1]].split()[0] if (d and 0 <= d[1] < len(s.lines)) else None
     def differ(ls):
@@ -440,6 +452,12 @@ def search(prop, runner, s, d, orc, cr, lr, tier):
         small = ddmin(lines, oracle_fails, budget)
         o, crash = impl_out(small)
         why = prop.oracle(Scenario("x", small, s.meta), o) if (has_oracle and not crash) else None
+        if why is None and hasattr(prop, "oracle2") and not crash:
+            pre = getattr(prop, "two_pass", None)
+            sc = Scenario("x", small, s.meta)
+            lo = runner.run_batch([Scenario("x", pre(sc, o) if pre else small)], "lean", timeout=60)[0]
+            if lo[1] is None:
+                why = prop.oracle2(sc, o, lo[0])
         return True, small, why, o[-3:] if o else None, crash or ""
     # correspondence differs but the oracle is happy on this scenario: shrink the difference,
     # then try the property's own neighbourhood generators on the implementation
